@@ -25,8 +25,12 @@
      - a name captured by a closure of a block may not be bound LATER in the same block (the
        pinned compiler aborts: "unknown freevar x during emit" — reported as a C08 finding;
        profile weight `late_shadow` re-enables it);
-     - consecutive nested functions are mutually visible in Never; the evaluator only sees the
-       earlier ones, so a later sibling never gets a name the earlier ones use freely;
+     - consecutive nested functions are mutually visible in Never AND in the evaluator (Eval.v
+       func_env): `it_func` items come, with weight sib_fwd, as a run [A; B] in which the earlier A
+       was generated with the later B in scope (forward reference; B never sees A, so the call
+       graph stays well founded); mutual recursion between siblings comes from Idioms.id_siblings.
+       A later sibling still never takes a name that an earlier one uses freely: the earlier body
+       was generated (and typed) for the outer binding of that name;
      - divisors are never a compile-time constant 0 (rejected by the compiler); INT_MIN / -1 is
        generated (wraps since 7c75cd1); shift counts are 0..31. *)
 open Evalmodel
@@ -58,7 +62,8 @@ type env = {
   forbid : IS.t;                     (* names that may not be bound in the current block *)
   sib : IS.t;                        (* names used freely by the nested functions directly before this point:
                                         an adjacent following function may not take them (adjacent nested
-                                        functions are mutually visible in Never, not in Eval.v) *)
+                                        functions are mutually visible: the earlier body would see the new
+                                        function instead of the binding it was generated and typed for) *)
   loopd : int;
   recf : recf option;
 }
@@ -78,6 +83,7 @@ type st = {
   mutable shadowing : int;           (* binders that reuse a visible name *)
   mutable tracer : vinfo option;
   mutable btracer : vinfo option;
+  mutable want : vinfo option;       (* the later sibling of the function under construction: calls to it are favoured *)
 }
 
 (* ---- profiles ---------------------------------------------------------------------------- *)
@@ -107,6 +113,12 @@ let defaults = [
   "id_alias", 0; "id_catch", 0; "id_shadow", 0; "id_order", 0; "id_tail", 0; "id_agg", 0; "id_mutual", 0;
   "id_pipe", 0; "pp_pipe", 0; "id_shadow2", 0; "id_shadow3", 0; "id_deepcap", 0;
   "id_repeat", 1;
+  (* adjacent nested functions: percent of the it_func items that come as a forward-referencing run *)
+  "sib_fwd", 30; "id_siblings", 0;
+  (* == / != between a reference (record, array, function value) and nil *)
+  "b_nil", 2;
+  (* exceptions and environments / frames / heap *)
+  "id_catchcap", 0; "id_tempcall", 0;
 ]
 
 let profiles = [
@@ -118,24 +130,24 @@ let profiles = [
   "alias", ["id_alias", 100; "id_repeat", 4; "i_var", 50; "it_assign", 40; "it_var", 35; "it_let", 25;
             "t_rec", 18; "t_arr", 18; "varparam", 50; "dump", 95; "i_cond", 14; "i_assign", 10; "nrecs_max", 3;
             "x_var", 60; "i_block", 6];
-  "closure", ["id_deepcap", 75; "id_shadow3", 45; "id_counter", 70; "id_adder", 50; "id_loopcap", 40; "id_reccap", 50; "id_compose", 40;
+  "closure", ["id_siblings", 55; "id_catchcap", 55; "id_tempcall", 55; "sib_fwd", 45; "b_nil", 5; "id_deepcap", 75; "id_shadow3", 45; "id_counter", 70; "id_adder", 50; "id_loopcap", 40; "id_reccap", 50; "id_compose", 40;
               "it_func", 22; "t_fun", 25; "i_fcall", 18; "i_applam", 6; "rf_fun", 30; "nfuncs_max", 4;
               "depth", 3; "dump", 70];
-  "shadow", ["shadow", 65; "id_shadow", 80; "id_shadow2", 60; "id_shadow3", 85; "id_deepcap", 35; "it_func", 16; "it_let", 30; "it_var", 30; "i_block", 10;
+  "shadow", ["id_siblings", 45; "id_catchcap", 20; "sib_fwd", 45; "shadow", 65; "id_shadow", 80; "id_shadow2", 60; "id_shadow3", 85; "id_deepcap", 35; "it_func", 16; "it_let", 30; "it_var", 30; "i_block", 10;
              "i_applam", 6; "t_fun", 14; "dump", 80; "block_items", 3; "i_fcall", 10; "catch", 15];
-  "loops", ["it_loop", 30; "i_loop", 4; "id_loopcap", 20; "main_items", 6; "dump", 80; "fault", 4;
+  "loops", ["id_tempcall", 25; "it_loop", 30; "i_loop", 4; "id_loopcap", 20; "main_items", 6; "dump", 80; "fault", 4;
             "t_arr", 16; "i_index", 14];
-  "records", ["t_rec", 35; "id_agg", 80; "nrecs_max", 3; "i_field", 25; "fault", 12; "nilp", 15;
+  "records", ["b_nil", 16; "t_rec", 35; "id_agg", 80; "nrecs_max", 3; "i_field", 25; "fault", 12; "nilp", 15;
               "x_new", 40; "rf_rec", 25; "dump", 80; "catch", 20];
-  "arrays", ["t_arr", 35; "id_agg", 80; "i_index", 25; "fault", 14; "it_loop", 14; "dump", 80; "catch", 20;
+  "arrays", ["b_nil", 16; "t_fun", 12; "t_arr", 35; "id_agg", 80; "i_index", 25; "fault", 14; "it_loop", 14; "dump", 80; "catch", 20;
              "rf_arr", 25];
-  "catch", ["id_catch", 100; "id_repeat", 3; "catch", 60; "fault", 22; "nilp", 12; "nfuncs_min", 2; "nfuncs_max", 4;
+  "catch", ["id_catchcap", 45; "id_catch", 100; "id_repeat", 3; "catch", 60; "fault", 22; "nilp", 12; "nfuncs_min", 2; "nfuncs_max", 4;
             "i_call", 22; "it_call", 14; "it_loop", 10; "t_rec", 14; "t_arr", 14; "it_func", 10];
   "tailrec", ["id_tail", 100; "f_tail", 0; "f_rec", 30; "id_mutual", 40; "budget_main", 7000; "tail_lo", 150; "tail_hi", 400;
               "nfuncs_max", 2; "main_items", 3; "depth", 2];
   "pipe", ["pp_pipe", 65; "id_pipe", 100; "id_repeat", 2; "i_call", 25; "i_fcall", 10; "it_call", 14; "it_func", 14; "t_fun", 14;
            "id_tail", 25; "id_order", 40; "f_rec", 25; "tail_lo", 30; "tail_hi", 120; "nfuncs_min", 2; "nfuncs_max", 4];
-  "mix", ["pp_pipe", 8; "id_pipe", 10; "id_deepcap", 15; "id_shadow3", 15; "id_counter", 15; "id_adder", 10; "id_loopcap", 10; "id_reccap", 10; "id_compose", 10; "id_alias", 25;
+  "mix", ["id_siblings", 15; "id_catchcap", 15; "id_tempcall", 15; "sib_fwd", 40; "b_nil", 5; "pp_pipe", 8; "id_pipe", 10; "id_deepcap", 15; "id_shadow3", 15; "id_counter", 15; "id_adder", 10; "id_loopcap", 10; "id_reccap", 10; "id_compose", 10; "id_alias", 25;
           "id_catch", 25; "id_shadow", 15; "id_shadow2", 10; "id_order", 20; "id_agg", 20; "shadow", 15; "catch", 20; "fault", 8;
           "it_func", 10; "t_fun", 12];
 ]
@@ -150,7 +162,7 @@ let make_st (rng : Rng.t) (profile : string) (overrides : (string * int) list) :
    | None -> failwith ("unknown profile " ^ profile));
   List.iter (fun (k, v) -> Hashtbl.replace w k v) overrides;
   { rng; w; next = 0; recs = []; used = []; cost = 0; nodes = 0; top = []; marker = 900000; markers = [];
-    flags = Hashtbl.create 17; shadowing = 0; tracer = None; btracer = None }
+    flags = Hashtbl.create 17; shadowing = 0; tracer = None; btracer = None; want = None }
 
 let w st key = try Hashtbl.find st.w key with Not_found -> 0
 let flag st key = Hashtbl.replace st.flags key (1 + (try Hashtbl.find st.flags key with Not_found -> 0))
@@ -427,8 +439,32 @@ and gen_bool st env d ~op : expr * k =
     w st "b_andor", (fun () -> let a = subb () in let b = subb () in (EBin (Rng.pick st.rng [And; Or], a, b), KT));
     w st "b_not", (fun () -> (ENot (subb ()), KT));
     w st "b_eq", (fun () -> let a = subb () in let b = subb () in (EBin (Rng.pick st.rng [Eq0; Ne], a, b), KT));
+    w st "b_nil", (fun () -> (gen_nilcmp st env d, KT));
   ] @ List.map (fun (wt, f) -> (wt * w st "b_src" / 30, f)) (sources st env TBool d ~op) in
   Rng.weighted st.rng choices ()
+
+(* `x == nil`, `nil != x`, ... on a record, an array or a function value (the type checker admits a
+   reference operand of == / != only against the literal nil); the operand is a variable, a named
+   function, a field / element / call result or a fresh object; rarely nil itself *)
+and gen_nilcmp st env d : expr =
+  let refvar (v : vinfo) = match v.vty with
+    | TRec _ | TArr _ -> v.vb <> BFunc
+    | TFun _ -> v.vb <> BFunc || (v.firstclass && not v.selfref)
+    | _ -> false in
+  let cands = List.filter refvar (visible env) in
+  let nil_of = function TRec r -> ERecNil r | _ -> ERecNil (n_of_int 0) in
+  let x, ty =
+    if cands <> [] && Rng.pct st.rng 60 then (let v = Rng.pick st.rng cands in (ev v.vn, v.vty))
+    else if Rng.pct st.rng 6 then (ERecNil (n_of_int 0), TInt)
+    else
+      let ty = Rng.weighted st.rng [
+          (if st.recs <> [] then 40 else 0), (fun () -> TRec (n_of_int (fst (Rng.pick st.rng st.recs))));
+          30, (fun () -> TArr (rand_elem_type st));
+          25, (fun () -> Rng.pick st.rng fun_pool) ] () in
+      (fst (gen_expr st env ty (d - 1) ~op:false), ty) in
+  flag st "nil_compare";
+  let op = Rng.pick st.rng [Eq0; Ne] in
+  if Rng.bool st.rng then EBin (op, x, nil_of ty) else EBin (op, nil_of ty, x)
 
 and gen_other st env ty d ~op : expr * k =
   let vs = match ty with TFun _ -> fun_values env ty | _ -> vars_of env ty in
@@ -463,7 +499,13 @@ and sources st env ty d ~op : (int * (unit -> expr * k)) list =
       | _ -> false) (List.filter (fun v -> v.vb <> BFunc) vis) in
   let arrvars = List.filter (fun v -> v.vty = TArr ty && v.vb <> BFunc) vis in
   let lv = if fun_free st [] ty then 1 else 0 in
+  let want = match st.want with
+    | Some v when (match v.vty with TFun (_, r) -> r = ty | _ -> false)
+                  && (match resolve env v.vn with Some v' -> v' == v | None -> false)
+                  && st.cost + env.mult * v.fcost <= env.budget -> [v]
+    | _ -> [] in
   [
+    (if want <> [] then 45 else 0), (fun () -> gen_call st env (List.hd want) d);
     (if named <> [] then w st "i_call" else 0), (fun () -> gen_call st env (Rng.pick st.rng named) d);
     (if fvals <> [] && unk_ok then w st "i_fcall" else 0), (fun () ->
         let v = Rng.pick st.rng fvals in
@@ -602,8 +644,10 @@ and gen_item st env d : item list * env =
   let choices = [
     w st "it_let" + w st "it_var", (fun () -> gen_binding st env d);
     (if env.lvl < 3 then w st "it_func" else 0), (fun () ->
-        let fd, v = gen_named_func st env d in
-        ([IFunc fd], bind env v));
+        if pct st "sib_fwd" then gen_func_run st env d
+        else
+          let fd, v = gen_named_func st env d in
+          ([IFunc fd], bind env v));
     w st "it_assign", (fun () ->
         let ty = if Rng.pct st.rng 70 then TInt else rand_type ~allow_fun:false st in
         match gen_assign st env ty d with
@@ -630,6 +674,19 @@ and gen_item st env d : item list * env =
     w st "it_expr", (fun () -> stmt (fst (gen_expr st env (rand_type ~allow_fun:false st) d ~op:false)));
   ] in
   Rng.weighted st.rng choices ()
+
+(* a run [A; B] of adjacent nested functions with a forward reference: B (the later one) is
+   generated first, without A in scope; A is generated with B in scope and may call it / use it as
+   a value before B's item.  A's name may not be one that B uses freely. *)
+and gen_func_run st env d : item list * env =
+  let fdb, vb = gen_named_func st env d in
+  let env_a = { (bind env vb) with sib = IS.add vb.vn (IS.union env.sib (Uniq.free_of_fdef ~named:true fdb)) } in
+  let saved = st.want in
+  st.want <- Some vb;
+  let fda, va = gen_named_func st env_a d in
+  st.want <- saved;
+  if IS.mem vb.vn (Uniq.free_of_fdef ~named:true fda) then flag st "sibling_forward";
+  ([IFunc fda; IFunc fdb], { (bind env_a va) with sib = env.sib })
 
 (* [var i = start; loop] — the counter is bound in the enclosing block and protected *)
 and gen_loop st env d : item list =
@@ -766,7 +823,11 @@ and gen_named_func ?(toplevel = false) ?kind st env d : fdef * vinfo =
                 tailpos := true;
                 (* the items of this block may not hide f or n: the call is its last item *)
                 let env', its = gen_items st { env_r with block = []; forbid = IS.of_list [name; m]; sib = IS.empty; recf = None } 1 ~items:1 in
-                EBlock (its @ [IExpr (call_in { env' with recf = Some r })]));
+                (* `base` was generated for the scope before `its`: it cannot stand after them *)
+                let last = match rec_call st { env' with recf = Some r } r (max d 2) with
+                  | Some e -> e
+                  | None -> fst (gen_expr st { env' with recf = None } TInt 1 ~op:false) in
+                EBlock (its @ [IExpr last]));
             15, (fun () -> let c = call () in EBin (Add, c, fst (gen_expr st env_r TInt (max d 2) ~op:true))) ] ()
         | TBool when Rng.bool st.rng -> ENot (call ())
         | _ -> tailpos := true; call () in
